@@ -72,7 +72,7 @@ PROPS = {
         assumptions=["Crypto laws: a signature made with a private key verifies under its public key; ECDSA/RSA key type is what the key's Go type says"],
     ),
     "C02": dict(
-        modules=['Gopki.Props.C02'], theorems=['C02.C02_reencode_identity', 'C02.C02_model_cert_decodable', 'C02.C02_algid_params', 'C02.C02_inner_eq_outer', 'C02.C02_version_v3', 'C02.C02_serial_source', 'C02.C02_serial_len', 'C02.C02_time_form', 'Der.dec_sound', 'Der.dec_enc'], ops=['pki', 'hist'],
+        modules=['Gopki.Props.C02', 'Gopki.Props.Tags'], theorems=['C02.C02_reencode_identity', 'C02.C02_model_cert_decodable', 'C02.C02_algid_params', 'C02.C02_inner_eq_outer', 'C02.C02_version_v3', 'C02.C02_serial_source', 'C02.C02_serial_len', 'C02.C02_time_form', 'Der.dec_sound', 'Der.dec_enc', 'Tags.tags_certificate'], ops=['pki', 'hist'],
         rule="pki: forests of 1-5 entities (random parent vector, nested directories, yaml/yml/json), every key algorithm except RSA>=2048 in quick, configured/omitted signature algorithms, "
              "subjects from the documented grammar incl. UTF-8 and custom OIDs, 0-6 extensions of all 11 kinds, serials, unique ids, validity forms, manipulations in 1 of 5 forests, 6 zone offsets, 5 flag sets; "
              "every generated certificate is compared byte for byte with the model and read by the strict decoder; non-trivial = at least one certificate generated",
@@ -88,7 +88,7 @@ PROPS = {
         assumptions=[],
     ),
     "C07": dict(
-        modules=['Gopki.Props.C07', 'Gopki.Props.C05'], theorems=['C07.C07_keyusage_bits', 'C07.C07_keyusage_names', 'C07.decInt_natIntBytes', 'C07.C07_basic_constraints_roundtrip', 'C07.C07_ski_roundtrip', 'X509.decodeDer_enc', 'X509.decodeDer_sound', 'C05.model_general_name_tags_eq_facts', 'C05.model_eku_names_eq_facts'], ops=['ext', 'pki'],
+        modules=['Gopki.Props.C07', 'Gopki.Props.C05', 'Gopki.Props.Tags'], theorems=['C07.C07_keyusage_bits', 'C07.C07_keyusage_names', 'C07.decInt_natIntBytes', 'C07.C07_basic_constraints_roundtrip', 'C07.C07_ski_roundtrip', 'X509.decodeDer_enc', 'X509.decodeDer_sound', 'C05.model_general_name_tags_eq_facts', 'C05.model_eku_names_eq_facts', 'Tags.tags_policies'], ops=['ext', 'pki'],
         rule="ext: all 128 key-usage subsets, basicConstraints ca x pathLen in {absent,0,1,2,127,128,255,256,65535} (thorough 0..255), key identifiers hashed and explicit (1/20/200 bytes), every kind with raw !null/!empty/!binary (4 and 900 bytes) and without content, "
              "3000 (thorough 60000) random structured contents of the nine structured kinds, SAN/admission IP boundary and malformed addresses, all 256 subsets of optional admission members x four authority kinds, strings the encoders must reject; "
              "the model must produce the same bytes and the RFC 5280 / CommonPKI decoders must read the configured content back; non-trivial = structured content emitted" + " | " + "pki: forests of 1-5 entities (random parent vector, nested directories, yaml/yml/json), every key algorithm except RSA>=2048 in quick, configured/omitted signature algorithms, "
@@ -121,7 +121,7 @@ PROPS = {
         assumptions=["user-supplied artifacts holding certificate and key are coherent; replaced artifacts are copies of other entities' files without hash line"],
     ),
     "C13": dict(
-        modules=["Gopki.Props.C13"], theorems=['C13.C13_independent_of_alias_and_profile_name', 'C13.C13_hash_independent', 'C13.C13_independent_of_now', 'C13.C13_validity_blind_spot', 'C13.C13_extension_kind_blind_spot'], ops=['hash', 'hist'],
+        modules=['Gopki.Props.C13', 'Gopki.Props.Tags'], theorems=['C13.C13_independent_of_alias_and_profile_name', 'C13.C13_hash_independent', 'C13.C13_independent_of_now', 'C13.C13_validity_blind_spot', 'C13.C13_extension_kind_blind_spot', 'Tags.tags_hashed_struct'], ops=['hash', 'hist'],
         rule="hash: 60 (thorough 1000) base configurations with and without profile x {4-5 re-readings under other alias / file name / profile name / JSON syntax} x ~22 single-field edits of certificate and profile; JSON pre-image and SHA-1 compared with the model; every pair of variants compared (certificate differs => hash differs); non-trivial = base configuration accepted",
         modelled=['modelled, not verified: encoding/asn1 marshalling (Gopki.Base.Asn1 / Gopki.Model.Generator), encoding/pem, encoding/json (Gopki.Model.Hash), io/fs walk order, MapFS, YAML/JSON-schema front end (identity)', 'signature mathematics and key generation: oracle inputs; verification done by the harness with crypto/ecdsa, crypto/rsa and the keybase brainpool curves'],
         assumptions=[],
@@ -169,7 +169,7 @@ PROPS = {
         assumptions=["the public point of a key is d*G (checked by the harness for every key read)"],
     ),
     "C16": dict(
-        modules=["Gopki.Props.C16"], theorems=['C16.C16_general_name_tags', 'C16.C16_convert_kinds', 'C16.C16_convert_kinds_facts', 'C16.C16_admissions_tagging', 'C16.C16_profession_info_shape', 'C16.C16_registration_number_checked'], ops=["ext"],
+        modules=['Gopki.Props.C16', 'Gopki.Props.Tags'], theorems=['C16.C16_general_name_tags', 'C16.C16_convert_kinds', 'C16.C16_convert_kinds_facts', 'C16.C16_admissions_tagging', 'C16.C16_profession_info_shape', 'C16.C16_registration_number_checked', 'Tags.tags_admission'], ops=["ext"],
         rule="ext: all 128 key-usage subsets, basicConstraints ca x pathLen in {absent,0,1,2,127,128,255,256,65535} (thorough 0..255), key identifiers hashed and explicit (1/20/200 bytes), every kind with raw !null/!empty/!binary (4 and 900 bytes) and without content, "
              "3000 (thorough 60000) random structured contents of the nine structured kinds, SAN/admission IP boundary and malformed addresses, all 256 subsets of optional admission members x four authority kinds, strings the encoders must reject; "
              "the model must produce the same bytes and the RFC 5280 / CommonPKI decoders must read the configured content back; non-trivial = structured content emitted",
